@@ -23,8 +23,8 @@ the binary operators `x op y` and `x op c` of `Array<1>` with assignment of the 
 `xapyb` and `sapyb` with scalar and with vector factors) runs without any access outside owned
 storage and ends in registers that satisfy the invariant.  `Op` has no other constructors: the
 theorem covers every operation of the alphabet of the correspondence harness.  (An arithmetic
-operation whose operands could overflow 32 bits or divide by zero answers `skip` and changes
-nothing, in the model as in the harness.) -/
+operation — `+=` included — whose operands could overflow 32 bits or divide by zero answers `skip`
+and changes nothing, in the model as in the harness.) -/
 theorem C11_history_safe (ops : List Op) (rs : Regs) (h : RegsInv rs) (hwf : ∀ op ∈ ops, op.WF) :
     ∃ rs' outs, run rs ops = some (rs', outs) ∧ RegsInv rs' ∧ outs.length = ops.length :=
   run_safe ops rs h hwf
@@ -119,6 +119,15 @@ theorem C11_arith_range_errors (w v : Vec) (hw : Inv w) (hv : Inv v)
     (hne : ¬ (w.minIndex = v.minIndex ∧ w.maxIndex = v.maxIndex)) :
     w.baseAddAssign? Vec.baseArithGuard v = some none :=
   (baseAdd_spec w v hw hv).2 hne
+
+/-- negative witness (known finding `numeric-op-empty-operand`): the union in `C11_numeric_add` /
+`C11_numeric_arith` is taken with the *conventional* range `0..-1` of an empty operand, so adding an
+array without elements to `[3..5]` yields `[0..5]` — three new zero elements, although the operand's
+map has no element.  The theorems above state what the code does (they are true of it); the
+N-dimensional oracle of the harness states what an index-range map would do and reports this class. -/
+theorem C11_numeric_add_empty_operand_grows :
+    ((Vec.empty.resize? 3 5).bind fun w => (w.addAssign? Vec.empty).bind fun r =>
+        r.contents?.map fun cs => (r.minIndex, r.maxIndex, cs)) = some (0, 5, [0, 0, 0, 0, 0, 0]) := by decide
 
 /-! ### arithmetic other than `+=` -/
 
